@@ -209,6 +209,8 @@ SGR_LINES = (
     "a\x1b[mb",
     "\x1b[4;21;53;9mu\x1b[24mv\x1b[0m",
     "\x1b[97;100mB\x1b[39mC\x1b[49mD",
+    "\x1b[1;32mB\x1b[mp",    # ESC [ m : empty parameter string = 0 = reset (as written by git, grep, ls)
+    "\x1b[5;6mk\x1b[25ms",   # 25 = steady: neither slowly nor rapidly blinking
 )
 BRACKET_LINES = ("[bold]x", "[/x]y", "a[1]b", "[red]r[/red]", "][", ":smile:")
 UNDECODABLE = "p\x1b[²mq"
@@ -435,7 +437,9 @@ def proxy_minimise(ops, clause, sig=None):
         progress = True
         while progress and len(cur[k][1]) > 1:
             progress = False
-            for cand_text in (cur[k][1][1:], cur[k][1][:-1]):
+            text_k = cur[k][1]
+            for cand_text in [text_k[1:], text_k[:-1]] + [text_k[:i] + text_k[i + 1:]
+                                                         for i in range(1, len(text_k) - 1)]:
                 cand = [list(o) for o in cur]
                 cand[k][1] = cand_text
                 if still(cand):
